@@ -31,7 +31,7 @@ vars == <<tid, l, sub, aval, why>>
 
 Tr  == Traces[tid]
 NormAsset(a) == IF a.kind = "storage" THEN [a EXCEPT !.blocks = ToSet(@)] ELSE a
-C   == [Tr.cfg EXCEPT !.nodes = ToSet(@), !.assets = [i \in 1..Len(@) |-> NormAsset(@[i])]]
+C   == [Tr.cfg EXCEPT !.nodes = ToSet(@), !.split = ToSet(@), !.assets = [i \in 1..Len(@) |-> NormAsset(@[i])]]
 K   == Tr.K
 Tol == Tr.tol
 NA  == Len(C.assets)
